@@ -6,7 +6,7 @@
      field code back as that code, with index 0 when the writer had to force
      "<0>" on a number-like name. *)
 From Coq Require Import ZArith List Bool Lia String.
-From GD Require Import C07.Token C07.TokenProofs C07.Number C07.NumberProofs C07.Entry C07.EntryProofs.
+From GD Require Import C07.Token C07.TokenProofs C07.Number C07.NumberProofs C07.Entry C07.EntryProofs Gen.Formats.
 Import ListNotations.
 Local Open Scope Z_scope.
 
@@ -251,12 +251,15 @@ Proof.
   unfold tok_part_gen.
   pose proof (strto_int_good base0 s) as G1. pose proof (strtod_good s) as G2.
   destruct (strto_int base0 s) as [[neg mag] r1]. destruct (strtod_model s) as [[b rd] er]. cbn [fst snd] in *.
-  destruct ((- two63 <=? (if neg then - mag else mag)) && ((if neg then - mag else mag) <? two63));
-  destruct (zf && want && ((if neg then - mag else mag) =? 0));
-  destruct (mag <? two64);
-  destruct (negb er || uf && negb (dbl_is_inf b));
-  destruct (at_term semi r1) eqn:A1; destruct (at_term semi rd) eqn:A2;
-  cbn [negb andb orb]; intros H; try discriminate; injection H as _ <-; split; assumption.
+  generalize ((- two63 <=? (if neg then - mag else mag)) && ((if neg then - mag else mag) <? two63)).
+  generalize (zf && want && ((if neg then - mag else mag) =? 0)).
+  generalize (mag <? two64).
+  generalize (negb er || uf && negb (dbl_is_inf b)).
+  generalize (PUInt (if neg then (two64 - mag) mod two64 else mag)).
+  generalize (PInt (if neg then - mag else mag)).
+  intros p1 p2 b1 b2 b3 b4.
+  destruct b1, b2, b3, b4; destruct (at_term semi r1) eqn:A1; destruct (at_term semi rd) eqn:A2;
+    cbn [negb andb orb]; intros H; try discriminate; injection H as _ <-; split; assumption.
 Qed.
 
 Lemma tok_not_number_want uf zf base0 x : no59 x ->
@@ -344,7 +347,8 @@ Proof.
   constructor; [exact Hn|]. apply Forall_app. split.
   - destruct ((i =? -1) && looks_numeric (w_base0 c) n); [|constructor].
     constructor; [|constructor]. split; [apply plainb_plain; reflexivity | discriminate].
-  - destruct (i =? -1); [constructor|]. constructor; [|constructor]. split; [|discriminate].
+  - destruct (i =? -1); [constructor|]. change (B "<") with [60]. change (B ">") with [62]. cbn [app].
+    constructor; [|constructor]. split; [|discriminate].
     constructor; [split; [lia | reflexivity]|]. apply Forall_app. split; [apply plain_print_Z|].
     constructor; [split; [lia | reflexivity] | constructor].
 Qed.
@@ -370,8 +374,8 @@ Proof.
         unfold looks_numeric, tok_to_num in L.
         destruct (tok_to_num_gen tok_accepts_underflow tok_zero_via_strtod (w_base0 c) false false n); congruence.
       * rewrite <- (app_nil_r n) at 1. rewrite Hin, app_nil_r. apply carray_check_none. assumption.
-  - cbn [map piece_tok List.concat app]. rewrite app_nil_r.
-    change (B "<") with [60]. change (B ">") with [62]. cbn [app].
+  - cbn [map piece_tok List.concat app].
+    change (B "<") with [60]. change (B ">") with [62]. cbn [app]. rewrite !app_nil_r.
     split.
     + apply (tok_lt_not_number _ _ _ _ _ n (print_Z i ++ [62])); assumption.
     + rewrite Hin. apply carray_check_index; [assumption | lia].
